@@ -10,20 +10,21 @@
 // misplaced entry changes a decision, a reason set or an error set.
 //
 // Carve-outs (check weaker than the statement):
-//   * UnmarshalJSON into a non-empty set: only "every id of the source is present and correct" is asserted; whether old
+//   - UnmarshalJSON into a non-empty set: only "every id of the source is present and correct" is asserted; whether old
 //     entries survive (merge vs replace) is recorded as a label (the statement is silent);
-//   * positions of policies that went through JSON are not asserted; after MarshalCedar -> reload the offsets come from the
+//   - positions of policies that went through JSON are not asserted; after MarshalCedar -> reload the offsets come from the
 //     harness' own lexer over the marshalled text (if it cannot lex the text only Filename is asserted);
-//   * Get/Map/All are compared by content (IR), not by pointer identity;
-//   * the zero value PolicySet{} is used only as the receiver of UnmarshalJSON (the documented way to decode one).
+//   - Get/Map/All are compared by content (IR), not by pointer identity;
+//   - the zero value PolicySet{} is used only as the receiver of UnmarshalJSON (the documented way to decode one).
 //
 // Sensitivity (scratch copy of /repo, `go test ./c20/` = quick tier, one shard; all five caught, each within ~1 s):
-//   M1 policy_set.go Remove: `delete` dropped                        -> state/get after a 2-step history (add, remove); replay reproduces
-//   M2 policy_set.go Add: returns `exists` instead of `!exists`      -> add/return (1 step)
-//   M3 policy_set.go Map: returns the internal map                   -> state/all, state/get after map-mutate
-//   M4 policy_set.go NewPolicySetFromBytes: ids start at policy1     -> state/get, state/position after load; marshal-cedar/order
-//   M5 policy_set.go MarshalCedar: ids not sorted                    -> marshal-cedar/order (TestHistories and TestSortedMarshal)
-//   not tried: UnmarshalJSON merging instead of replacing (not asserted by design, label json-into-nonempty:*)
+//
+//	M1 policy_set.go Remove: `delete` dropped                        -> state/get after a 2-step history (add, remove); replay reproduces
+//	M2 policy_set.go Add: returns `exists` instead of `!exists`      -> add/return (1 step)
+//	M3 policy_set.go Map: returns the internal map                   -> state/all, state/get after map-mutate
+//	M4 policy_set.go NewPolicySetFromBytes: ids start at policy1     -> state/get, state/position after load; marshal-cedar/order
+//	M5 policy_set.go MarshalCedar: ids not sorted                    -> marshal-cedar/order (TestHistories and TestSortedMarshal)
+//	not tried: UnmarshalJSON merging instead of replacing (not asserted by design, label json-into-nonempty:*)
 package c20
 
 import (
@@ -155,6 +156,7 @@ type Op struct {
 	Name   string `json:"name,omitempty"`
 	Pools  []int  `json:"pools,omitempty"`  // load: pool index of each policy of the document
 	Starts []int  `json:"starts,omitempty"` // load: offset of each policy's first token
+	Keep   bool   `json:"keep,omitempty"`   // marshal-cedar / marshal-json: check the output, then go on with the SAME set object (not the reloaded one)
 }
 
 type Case struct {
@@ -487,7 +489,9 @@ func (m *machine) apply(op *Op) (sub, msg string) {
 			}
 			nm[nid] = e
 		}
-		sd.real, sd.model = ns, nm
+		if !op.Keep {
+			sd.real, sd.model = ns, nm
+		}
 	case "marshal-json":
 		b, err := sd.real.MarshalJSON()
 		if err != nil {
@@ -500,6 +504,26 @@ func (m *machine) apply(op *Op) (sub, msg string) {
 		nm := map[string]*entry{}
 		for id, e := range sd.model {
 			nm[id] = &entry{pool: e.pool}
+		}
+		if op.Keep {
+			// the decoded copy has to hold the same policies; the history continues with the original object
+			for id, e := range nm {
+				p := ns.Get(cedar.PolicyID(id))
+				if p == nil {
+					return "marshal-json/roundtrip", fmt.Sprintf("MarshalJSON output lacks policy %q", id)
+				}
+				if ok, msg := samePool(p, e.pool); !ok {
+					return "marshal-json/roundtrip", fmt.Sprintf("MarshalJSON output, %q: %s", id, msg)
+				}
+			}
+			cnt := 0
+			for range ns.All() {
+				cnt++
+			}
+			if cnt != len(nm) {
+				return "marshal-json/roundtrip", fmt.Sprintf("MarshalJSON output holds %d policies, the set %d", cnt, len(nm))
+			}
+			break
 		}
 		sd.real, sd.model = &ns, nm
 	case "json-into-nonempty":
@@ -678,10 +702,10 @@ func TestHistories(t *testing.T) {
 				run(Op{Kind: "copy", Set: set(), N: rapid.IntRange(0, 1).Draw(rt, "via")})
 			},
 			"marshalCedar": func(rt *rapid.T) {
-				run(Op{Kind: "marshal-cedar", Set: set(), Name: fileNames[rapid.IntRange(0, len(fileNames)-1).Draw(rt, "fname")]})
+				run(Op{Kind: "marshal-cedar", Set: set(), Name: fileNames[rapid.IntRange(0, len(fileNames)-1).Draw(rt, "fname")], Keep: rapid.Bool().Draw(rt, "keep")})
 			},
 			"marshalJSON": func(rt *rapid.T) {
-				run(Op{Kind: "marshal-json", Set: set()})
+				run(Op{Kind: "marshal-json", Set: set(), Keep: rapid.Bool().Draw(rt, "keep")})
 			},
 			"jsonIntoNonEmpty": func(rt *rapid.T) {
 				run(Op{Kind: "json-into-nonempty", Set: set(), Pool: rapid.IntRange(0, len(pool)-1).Draw(rt, "pool")})
